@@ -44,6 +44,15 @@ CLAIMS = {
                 'from a pool hit after a store miss. Script/capacity/since semantics are trusted (ckb-verification).',
         'note': 'Not decided: verifier semantics; that re-submission resets the announced-peer set; cycles arithmetic.',
     },
+    'C17': {
+        'technique': 'static analysis: lock-guard live ranges, protected-function fixpoint over the call graph, acquired-while-holding graph, snapshot-only read check over compiler MIR',
+        'text': 'Decides for every call-graph path from any entry that each sync-progress mutator of the store runs inside a live '
+                'write guard of the matched-blocks RwLock; that no operation splits its mutations over two critical sections; that '
+                'no RwLock/DashMap lock is re-acquired while held and the lock-order graph is acyclic; and that the three index queries '
+                'read only through one RocksDB snapshot. With std RwLock semantics this yields mutual exclusion of the listed '
+                'operations (serialisability), deadlock freedom of the lock graph and point-in-time reads.',
+        'note': 'Not decided: races outside the listed mutators (add_fetched_tx vs filter_block is handled under C03); fairness.',
+    },
 }
 
 _PENDING = 'check not built yet in this round (planned in DESIGN.md §5); not claimed until its rules run on the tree'
